@@ -16,6 +16,20 @@ CHECKS = {
             'another tree, detached node, MISSING) is executed up to the stated history depth; after every transition '
             'the parent/path/lookup/root/alias/detached invariant is evaluated on all nodes of all roots.',
             BASE_NOTE),
+    'C07': ('E1-statespace', 'model_checking',
+            'enumeration of (value, clone method) pairs + explicit-state BFS over mutation histories on either copy with a non-interference invariant',
+            'Fidelity (equality, type, per-node flags and value specs, topology, identity disjointness, leaf/Ref sharing '
+            'rule, original untouched) for every value of the list under clone(deep/shallow), copy.copy, copy.deepcopy; '
+            'independence: every mutation history up to the stated depth applied to either copy, the full snapshot of the '
+            'other copy compared after every transition.',
+            BASE_NOTE),
+    'C08': ('E2-enum', 'model_checking',
+            'exhaustive enumeration of tree x protected node x flag/scope configuration x complete mutator menu, reference permission function + unprotected twin run',
+            'Every mutator of the menu at the protected node and every descendant (and deep rebinds from the root) under '
+            'every combination of object flag and nested as_sealed / allow_writable_accessors scopes (True/False/None, '
+            'two deep; three deep in thorough): denied => WritePermissionError and identical snapshot; allowed => no '
+            'WritePermissionError; seal()/seal(False) recurse.',
+            BASE_NOTE),
     'C02': ('E1-statespace', 'model_checking',
             'explicit-state BFS to closure over the real pg.List/pg.Dict with a lock-step plain list/dict reference model',
             'Every (reachable content, operation) pair over the list/dict API menu with all indices/slices/steps within '
